@@ -45,10 +45,12 @@ type gen struct {
 	queue   []blockSpec
 	step    int
 	strange []string // odd addresses: module account, unknown account, valoper, wrong hrp
+	// accounts without a key that act through the wasm binding of the token factory (wasm.go)
+	contracts []contractAcct
 }
 
-func newGen(r *rand.Rand, users []*chain.Account, m *model, val *chain.Account) *gen {
-	g := &gen{r: r, users: users, m: m}
+func newGen(r *rand.Rand, users []*chain.Account, m *model, val *chain.Account, contracts []contractAcct) *gen {
+	g := &gen{r: r, users: users, m: m, contracts: contracts}
 	// small worlds collide more: each history works with a handful of sub-denoms
 	n := 3 + r.Intn(5)
 	perm := r.Perm(len(subPool))
@@ -65,6 +67,13 @@ func newGen(r *rand.Rand, users []*chain.Account, m *model, val *chain.Account) 
 		sdk.MustBech32ifyAddressBytes("cosmos", users[0].Addr),
 		"paloma1qqqqqqqqqqqqqqqqqqqqqqqqqqqqqqqqqqqqqq",
 		"not-an-address",
+	}
+	// environment: the contracts receive the funds they pay creation fees with (plain bank sends of
+	// the rich users, the first blocks of every history)
+	for i, c := range contracts {
+		s := i % 4
+		g.queue = append(g.queue, one(s, msgSpec{K: "send", Creator: users[s].Bech, Denom: chain.Denom, To: c.Bech,
+			Amt: fmt.Sprint(contractFunds[i%len(contractFunds)]), Variant: "fund-contract"}, "fund-contract"))
 	}
 	return g
 }
@@ -203,13 +212,16 @@ func (g *gen) hostileDenom(actor int) (string, string) {
 
 // hostileDenomRel additionally returns the existing token the hostile string was derived from ("" if none)
 func (g *gen) hostileDenomRel(actor int) (string, string, string) {
+	return g.hostileDenomFor(g.users[actor].Bech, g.users[g.otherThan(actor)].Bech)
+}
+
+// hostileDenomFor: u = the acting account (its "own namespace"), o = another account
+func (g *gen) hostileDenomFor(u, o string) (string, string, string) {
 	ds := g.tokenList()
 	ex := ""
 	if len(ds) > 0 {
 		ex = ds[g.r.Intn(len(ds))]
 	}
-	u := g.users[actor].Bech
-	o := g.users[g.otherThan(actor)].Bech
 	sub := g.subs[g.r.Intn(len(g.subs))]
 	switch g.r.Intn(16) {
 	case 0:
@@ -293,7 +305,11 @@ func (g *gen) mintAmount(d string) (*big.Int, string) {
 }
 
 func (g *gen) burnAmount(d string, actor int) (*big.Int, string) {
-	bal := g.m.balance(d, g.users[actor].Bech)
+	return g.burnAmountFor(d, g.users[actor].Bech)
+}
+
+func (g *gen) burnAmountFor(d string, bech string) (*big.Int, string) {
+	bal := g.m.balance(d, bech)
 	sup := g.m.supplyOf(d)
 	switch x := g.r.Intn(100); {
 	case x < 40 && bal.Sign() > 0:
@@ -325,7 +341,7 @@ func (g *gen) pickActor(d string) (int, string) {
 	switch {
 	case x < 55 && a >= 0:
 		return a, "admin"
-	case x < 67 && t != nil && t.CreatorIdx != a:
+	case x < 67 && t != nil && t.CreatorIdx >= 0 && t.CreatorIdx != a:
 		return t.CreatorIdx, "creator-not-admin"
 	case x < 80:
 		hs := g.holders(d)
@@ -378,13 +394,15 @@ func (g *gen) msgBurn(s int, d string, dc string) msgSpec {
 func (g *gen) newAdmin(s int, d string) (string, string) {
 	t := g.m.tokens[d]
 	switch x := g.r.Intn(100); {
-	case x < 50:
+	case x < 43:
 		return g.users[g.otherThan(s)].Bech, "other-user"
+	case x < 50 && len(g.contracts) > 0: // hand the token over to a contract (it acts through the wasm binding)
+		return g.contracts[g.r.Intn(len(g.contracts))].Bech, "contract"
 	case x < 58:
 		return g.users[s].Bech, "self"
 	case x < 64:
 		return "", "nobody"
-	case x < 82 && t != nil:
+	case x < 82 && t != nil && t.CreatorIdx >= 0:
 		return g.users[t.CreatorIdx].Bech, "creator"
 	case x < 87:
 		return strings.ToUpper(g.users[g.otherThan(s)].Bech), "upper-other-user"
@@ -475,6 +493,16 @@ func (g *gen) pickDenom(actorHint int) (string, string, string) {
 	return g.hostileDenomRel(actorHint)
 }
 
+// recreate: the original creator of token t tries to create it again (a user by message, a
+// contract through the binding)
+func (g *gen) recreate(t *token) blockSpec {
+	if t.CreatorIdx < 0 {
+		return wcall(t.CreatorContract, "recreate", msgSpec{K: "wasm-create", Creator: g.contracts[t.CreatorContract].Bech, Sub: t.Sub, DenomClass: "recreate"})
+	}
+	c, sg := g.honest(t.CreatorIdx)
+	return one(t.CreatorIdx, msgSpec{K: "create", Creator: c, Signers: sg, CreatorClass: "self", Sub: t.Sub, DenomClass: "recreate"}, "recreate")
+}
+
 // scenario pushes a scripted multi-block sub-scenario onto the queue
 func (g *gen) scenario() bool {
 	ds := g.tokenList()
@@ -500,7 +528,7 @@ func (g *gen) scenario() bool {
 			one(x, mk(x, msgSpec{K: "mint", Denom: d, Amt: "1000", DenomClass: "existing", AmtClass: "small"}), "takeover"),
 			one(x, mk(x, msgSpec{K: "burn", Denom: d, Amt: "1", DenomClass: "existing", AmtClass: "one"}), "takeover"),
 			one(x, mk(x, g.msgSetMeta(x, d, "existing")), "takeover"),
-			one(t.CreatorIdx, mk(t.CreatorIdx, msgSpec{K: "create", Sub: t.Sub, DenomClass: "recreate"}), "recreate"),
+			g.recreate(t),
 		)
 	case 1: // hand-over: the old admin loses every right, the new one gains them, own balances only
 		if a < 0 {
@@ -516,7 +544,7 @@ func (g *gen) scenario() bool {
 			one(b, mk(b, msgSpec{K: "burn", Denom: d, Amt: new(big.Int).Add(g.m.balance(d, g.users[b].Bech), big.NewInt(1)).String(), DenomClass: "existing", AmtClass: "balance+1"}), "handover-new-admin"),
 			one(b, mk(b, msgSpec{K: "mint", Denom: d, Amt: "9", DenomClass: "existing", AmtClass: "small"}), "handover-new-admin"),
 			one(b, mk(b, msgSpec{K: "burn", Denom: d, Amt: "4", DenomClass: "existing", AmtClass: "within-balance"}), "handover-new-admin"),
-			one(t.CreatorIdx, mk(t.CreatorIdx, msgSpec{K: "create", Sub: t.Sub, DenomClass: "recreate"}), "recreate"),
+			g.recreate(t),
 		)
 	case 2: // renounce: nobody is admin afterwards
 		if a < 0 || !g.pct(50) {
@@ -528,7 +556,7 @@ func (g *gen) scenario() bool {
 			one(a, mk(a, msgSpec{K: "burn", Denom: d, Amt: "1", DenomClass: "existing", AmtClass: "one"}), "renounced"),
 			one(a, mk(a, msgSpec{K: "chadmin", Denom: d, NewAdmin: g.users[a].Bech, DenomClass: "existing", Variant: "self"}), "renounced"),
 			one(a, mk(a, g.msgSetMeta(a, d, "existing")), "renounced"),
-			one(t.CreatorIdx, mk(t.CreatorIdx, msgSpec{K: "create", Sub: t.Sub, DenomClass: "recreate"}), "recreate"),
+			g.recreate(t),
 		)
 	case 3: // a holder who is not admin tries to burn; the admin tries to burn more than it holds
 		if a < 0 {
@@ -733,6 +761,10 @@ func (g *gen) single0() (int, msgSpec, string) {
 	case x < 22 && len(ds) > 0: // deliberate re-creation by the original creator
 		d := ds[g.r.Intn(len(ds))]
 		t := g.m.tokens[d]
+		if t.CreatorIdx < 0 { // created by a contract: wasmBlock / recreate cover that; a plain create instead
+			s := g.r.Intn(len(g.users))
+			return s, g.msgCreate(s, g.subs[g.r.Intn(len(g.subs))]), "create"
+		}
 		m := g.msgCreate(t.CreatorIdx, t.Sub)
 		m.DenomClass = "recreate"
 		return t.CreatorIdx, m, "recreate"
@@ -851,6 +883,8 @@ func (g *gen) fresh() blockSpec {
 	case x < 24: // environment: fee allowance granted / revoked
 		s, m, note := g.allowanceOp()
 		return one(s, m, note)
+	case x < 37 && len(g.contracts) > 0: // the second entry point: a contract acts through the wasm binding
+		return g.wasmBlock()
 	}
 	s, m, note := g.single()
 	return one(s, m, note)
